@@ -44,7 +44,24 @@ def _cls(av):
                 raise Untranslatable(f"category {a}")
         else:
             raise Untranslatable(f"class item {op}")
-    return f"(.cls ⟨{str(neg).lower()}, [{', '.join(items)}]⟩)"
+    # canonical order inside a class: ranges sorted by code point (semantically the same set), categories last
+    def key(it):
+        if it.startswith(".range"):
+            a, b = it.split()[1:]
+            return (0, int(a), int(b))
+        return (1, 0, 0, it)
+    items = sorted(set(items), key=key)
+    # ... and adjacent or overlapping ranges merged: [a-cd-z] is [a-z]
+    merged = []
+    for it in items:
+        if it.startswith(".range") and merged and merged[-1].startswith(".range"):
+            a, b = map(int, it.split()[1:])
+            pa, pb = map(int, merged[-1].split()[1:])
+            if a <= pb + 1:
+                merged[-1] = f".range {pa} {max(pb, b)}"
+                continue
+        merged.append(it)
+    return f"(.cls ⟨{str(neg).lower()}, [{', '.join(merged)}]⟩)"
 
 
 def _seq(parts):
